@@ -303,11 +303,23 @@ func (t *Tree) Remove(key []byte) (value []byte, removed bool) {
 		if err != nil {
 			panic(err) //数据库已经损坏
 		}
-		t.root = root
+		t.root = promoteToRoot(root)
 	} else {
-		t.root = newRoot
+		t.root = promoteToRoot(newRoot)
 	}
 	return value, true
+}
+
+// promoteToRoot 旧版本中的非根节点成为新的根节点时, 其缓存的hash是带高度前缀的存储key;
+// 根节点的hash必须是不带前缀的内容hash(状态根, 证明校验都依赖它), 因此去掉前缀并重新保存该节点
+func promoteToRoot(node *Node) *Node {
+	if node == nil || len(node.hash) <= sha256Len {
+		return node
+	}
+	root := *node
+	root.hash = node.hash[len(node.hash)-sha256Len:]
+	root.persisted = false
+	return &root
 }
 
 func (t *Tree) getMaxBlockHeight() int64 {
